@@ -71,6 +71,13 @@ def builders(model):
             lambda I, w=w: inst(I, 'KullbackLeibler', X(w), prior=point(
                 X(w), [Rat.const(0), S('e4'), 2 * S('e4'), Rat.const(0)])),
             [S('e4'), 3 * S('e4') / 2, 3 * S('e4'), 2 * S('e4')])
+        # ... and a point with a negative entry in an empty bin (outside the
+        # effective domain: the value must be + inf there)
+        B['KullbackLeibler[prior with zeros, negative entry,%s]' % t] = (
+            lambda I, w=w: inst(I, 'KullbackLeibler', X(w), prior=point(
+                X(w), [Rat.const(0), S('e4'), 2 * S('e4'), Rat.const(0)])),
+            [S('e4'), 3 * S('e4') / 2, 3 * S('e4'), -2 * S('e4')],
+            'no-moreau')
         B['KullbackLeiblerCrossEntropy[%s]' % t] = (
             lambda I, w=w: inst(I, 'KullbackLeiblerCrossEntropy', X(w)), pos,
             'no-moreau')
@@ -273,9 +280,15 @@ def evaluate(model, build, entries, moreau=True):
                                              _s(PA.reduce_full(rhs))))
             # (a2) the inequality f(x) + f*(y) >= <x, y> away from the
             # gradient: y = g / 2 and y = 2 g
-            for fac, ft in ((Rat.const(1) / 2, 'g / 2'), (Rat.const(2),
-                                                         '2 g')):
-                y = [PA.reduce_full(fac * gj) for gj in g]
+            half = Rat.const(1) / 2
+            ys = [([PA.reduce_full(half * gj) for gj in g], 'g / 2'),
+                  ([PA.reduce_full(2 * gj) for gj in g], '2 g')]
+            for j in range(len(g)):
+                # the gradient with one coordinate halved
+                ys.append(([PA.reduce_full(half * gj) if i == j else gj
+                            for i, gj in enumerate(g)],
+                           'g with entry %d halved' % j))
+            for y, ft in ys:
                 try:
                     fy_ = I.call(fc, [_mk(dom, y)], {})
                 except Undecided:
